@@ -365,14 +365,14 @@ func c18Node(n *snapNode, humanized bool, st *SuiteStats, viol map[string]*Viola
 
 // bot tables: every hand played entirely by bots reaches settlement
 func c18BotTable(prefix []int, n int, stacks []int64, blind pt.TableBlindState) *vrt.Exec {
-	return c18BotTableX(prefix, n, stacks, blind, 0)
+	return c18BotTableX(prefix, n, stacks, blind, 0, "")
 }
 
 // c18BotTableX with inject=true: the same bot table with default draws while a newcomer's PlayerReserve, issued by
 // an outside caller, competes with the bots' moves under every schedule within the bound. The engine notifies the
 // actors while it holds its lock and a (non-humanized) bot answers from inside that notification while its
 // actor's lock is held; the hand must settle all the same.
-func c18BotTableX(prefix []int, n int, stacks []int64, blind pt.TableBlindState, injectAt int) *vrt.Exec {
+func c18BotTableX(prefix []int, n int, stacks []int64, blind pt.TableBlindState, injectAt int, outside string) *vrt.Exec {
 	inject := injectAt > 0
 	return runTable(prefix, vrt.Config{DataExplore: !inject, DataCost: !inject}, func(env *vrt.Env) (string, string, string) {
 		tc := defaultCfg(4)
@@ -393,7 +393,11 @@ func c18BotTableX(prefix []int, n int, stacks []int64, blind pt.TableBlindState,
 				playingSeen++
 				if playingSeen == injectAt {
 					// the outside caller turns up while this update is on its way to the actors
-					env.Go("outside:reserve", false, func() { td.reserve("x", 3, 5) })
+					if outside == "addon" {
+						env.Go("outside:addon", false, func() { td.addon("a", 3) })
+					} else {
+						env.Go("outside:reserve", false, func() { td.reserve("x", 3, 5) })
+					}
 				}
 			}
 			for _, a := range actors {
@@ -439,7 +443,7 @@ func c18BotTableX(prefix []int, n int, stacks []int64, blind pt.TableBlindState,
 		outcome := fmt.Sprintf("settled=%v %v %s", ok, chosen, handOutcome(td))
 		if !ok && inject {
 			t := td.table()
-			return outcome, "bot-hand-never-settles@outside-reserve-racing-bot-move", fmt.Sprintf("a newcomer's PlayerReserve issued while the bots play: the hand did not reach settlement: status %s, event %s, blocked %v, errors %v", t.State.Status, gsEvent(t), env.Blocked(), td.errs)
+			return outcome, "bot-hand-never-settles@outside-" + outside + "-racing-bot-move", fmt.Sprintf("an outside call (" + outside + ") issued while the bots play: the hand did not reach settlement: status %s, event %s, blocked %v, errors %v", t.State.Status, gsEvent(t), env.Blocked(), td.errs)
 		}
 		if !ok {
 			t := td.table()
@@ -934,7 +938,11 @@ func init() {
 			for k := 1; k <= 8; k++ {
 				k := k
 				ss = append(ss, &Suite{Name: fmt.Sprintf("c18/bot-table-outside-reserve/n2/at-update-%d", k), Bound: 1, Weight: 3, Run: func(prefix []int) *vrt.Exec {
-					return c18BotTableX(prefix, 2, []int64{6, 6}, blindStd(), k)
+					return c18BotTableX(prefix, 2, []int64{6, 6}, blindStd(), k, "reserve")
+				}})
+				// an add-on notifies after releasing the engine lock: a bot answering from inside the notification is fine
+				ss = append(ss, &Suite{Name: fmt.Sprintf("c18/bot-table-outside-addon/n2/at-update-%d", k), Bound: 1, Weight: 3, Run: func(prefix []int) *vrt.Exec {
+					return c18BotTableX(prefix, 2, []int64{6, 6}, blindStd(), k, "addon")
 				}})
 			}
 			ss = append(ss, orderSuite("c18/delivery-order/within-hand", "bot", tier, false))
